@@ -123,7 +123,7 @@ func TestC10(t *testing.T) {
 		t.Fatal(err)
 	}
 
-	ncases := r.N(60, 400)
+	ncases := r.N(60, 300)
 	maxops := 40
 
 	type cs struct {
